@@ -1366,3 +1366,90 @@ package sdf
 //@   id returns-wrapped-box
 //@   ensures [box-of-wrapped-shape] r == s.sdf.BoundingBox()
 //@ end
+
+//-----------------------------------------------------------------------------
+// C11: nothing written to a buffer is lost, duplicated or reordered.
+// Abstract view of a buffer = concatenation of the batches sent so far ++ buf;
+// Write appends its input to the view, Close moves buf into the sent part.
+
+//@ func Triangle3Buffer.Write
+//@   property C11
+//@   id view
+//@   requires len(a.buf) >= 0 && len(a.buf) < 256
+//@   ensures [no-flush-below-threshold] old(len(a.buf)) + len(in) < 256 ==> nsent() == 0 && len(a.buf) == old(len(a.buf)) + len(in)
+//@   ensures [no-flush-keeps-buffered-prefix] forall i int :: old(len(a.buf)) + len(in) < 256 && 0 <= i && i < old(len(a.buf)) ==> a.buf[i] == old(a.buf[i])
+//@   ensures [no-flush-appends-input-in-order] forall i int :: old(len(a.buf)) + len(in) < 256 && 0 <= i && i < len(in) ==> a.buf[old(len(a.buf)) + i] == in[i]
+//@   ensures [flush-sends-exactly-one-batch] old(len(a.buf)) + len(in) >= 256 ==> nsent() == 1 && len(sent(0)) == old(len(a.buf)) + len(in) && len(a.buf) == 0
+//@   ensures [flushed-batch-starts-with-buffered-items] forall i int :: old(len(a.buf)) + len(in) >= 256 && 0 <= i && i < old(len(a.buf)) ==> sent(0)[i] == old(a.buf[i])
+//@   ensures [flushed-batch-continues-with-input-in-order] forall i int :: old(len(a.buf)) + len(in) >= 256 && 0 <= i && i < len(in) ==> sent(0)[old(len(a.buf)) + i] == in[i]
+//@   ensures [buffer-after-flush-is-fresh] old(len(a.buf)) + len(in) >= 256 ==> !samecell(a.buf, sent(0))
+//@   ensures [returns-nil] isnil(r)
+//@ end
+
+//@ func Triangle3Buffer.Close
+//@   property C11
+//@   id view
+//@   requires len(a.buf) >= 0
+//@   ensures [flushes-the-remainder] old(len(a.buf)) != 0 ==> nsent() == 1 && len(sent(0)) == old(len(a.buf)) && len(a.buf) == 0
+//@   ensures [remainder-in-order] forall i int :: old(len(a.buf)) != 0 && 0 <= i && i < old(len(a.buf)) ==> sent(0)[i] == old(a.buf[i])
+//@   ensures [nothing-sent-when-empty] old(len(a.buf)) == 0 ==> nsent() == 0 && len(a.buf) == 0
+//@   ensures [returns-nil] isnil(r)
+//@ end
+
+//@ func NewTriangle3Buffer
+//@   property C11
+//@   id view
+//@   ensures [starts-empty] len(r.buf) == 0 && nsent() == 0
+//@ end
+
+//@ func Line2Buffer.Write
+//@   property C11
+//@   id view
+//@   requires len(a.buf) >= 0 && len(a.buf) < 128
+//@   ensures [no-flush-below-threshold] old(len(a.buf)) + len(in) < 128 ==> nsent() == 0 && len(a.buf) == old(len(a.buf)) + len(in)
+//@   ensures [no-flush-keeps-buffered-prefix] forall i int :: old(len(a.buf)) + len(in) < 128 && 0 <= i && i < old(len(a.buf)) ==> a.buf[i] == old(a.buf[i])
+//@   ensures [no-flush-appends-input-in-order] forall i int :: old(len(a.buf)) + len(in) < 128 && 0 <= i && i < len(in) ==> a.buf[old(len(a.buf)) + i] == in[i]
+//@   ensures [flush-sends-exactly-one-batch] old(len(a.buf)) + len(in) >= 128 ==> nsent() == 1 && len(sent(0)) == old(len(a.buf)) + len(in) && len(a.buf) == 0
+//@   ensures [flushed-batch-starts-with-buffered-items] forall i int :: old(len(a.buf)) + len(in) >= 128 && 0 <= i && i < old(len(a.buf)) ==> sent(0)[i] == old(a.buf[i])
+//@   ensures [flushed-batch-continues-with-input-in-order] forall i int :: old(len(a.buf)) + len(in) >= 128 && 0 <= i && i < len(in) ==> sent(0)[old(len(a.buf)) + i] == in[i]
+//@   ensures [buffer-after-flush-is-fresh] old(len(a.buf)) + len(in) >= 128 ==> !samecell(a.buf, sent(0))
+//@   ensures [returns-nil] isnil(r)
+//@ end
+
+//@ func Line2Buffer.Close
+//@   property C11
+//@   id view
+//@   requires len(a.buf) >= 0
+//@   ensures [flushes-the-remainder] old(len(a.buf)) != 0 ==> nsent() == 1 && len(sent(0)) == old(len(a.buf)) && len(a.buf) == 0
+//@   ensures [remainder-in-order] forall i int :: old(len(a.buf)) != 0 && 0 <= i && i < old(len(a.buf)) ==> sent(0)[i] == old(a.buf[i])
+//@   ensures [nothing-sent-when-empty] old(len(a.buf)) == 0 ==> nsent() == 0 && len(a.buf) == 0
+//@   ensures [returns-nil] isnil(r)
+//@ end
+
+//@ func NewLine2Buffer
+//@   property C11
+//@   id view
+//@   ensures [starts-empty] len(r.buf) == 0 && nsent() == 0
+//@ end
+
+//@ func WriteTriangles$1
+//@   property C11
+//@   id collector
+//@   invariant 0 true
+//@   invariant 1 rangeindex >= -1 && rangeindex < len(ts) && len(*triangles) == pre(len(*triangles)) + rangeindex + 1
+//@   invariant 1 forall k int :: 0 <= k && k < pre(len(*triangles)) ==> (*triangles)[k] == pre((*triangles)[k])
+//@   invariant 1 forall k int :: 0 <= k && k <= rangeindex ==> (*triangles)[pre(len(*triangles)) + k] == ts[k]
+//@   ensures [returns] true
+//@ end
+
+//-----------------------------------------------------------------------------
+// C13: the facet normal written to STL files
+
+//@ func Triangle3.Normal
+//@   property C13
+//@   requires t[1].Sub(t[0]).Cross(t[2].Sub(t[0])).Length2() > 0
+//@   ensures [unit-length] r.Length2() == 1
+//@   ensures [perpendicular-to-first-edge] r.Dot(t[1].Sub(t[0])) == 0
+//@   ensures [perpendicular-to-second-edge] r.Dot(t[2].Sub(t[0])) == 0
+//@   ensures [right-hand-rule] r.Dot(t[1].Sub(t[0]).Cross(t[2].Sub(t[0]))) > 0
+//@ end
